@@ -684,6 +684,7 @@ fn run_for_panic<D: Store + Mk>(parsed: &ParseResult, ntok: usize, hk: HostK, ma
     // one step may walk a range of two billion positions (a slice with a huge range cast to a list): the run is
     // cut off after a bounded number of store calls, which is a budget of this harness, not a verdict
     a.m.max_ops = a.m.ops + 3_000_000;
+    a.m.max_reads = a.m.reads.get() + 1_000_000;
     let unit = a.m.add_unit().ok()?;
     start(&mut a.m, *a.build.jump_index(), unit).ok()?;
     let mut n = 0u64;
@@ -980,7 +981,8 @@ pub fn run(ctx: &Ctx, which: Which) -> (Acc, String, bool) {
         v
     };
     let script_total = scripts.len() as u64;
-    let focus_len = ctx.pick(5usize, 6usize);
+    // C07 runs every accepted input six times (2 stores x 3 hosts): one token shorter there
+    let focus_len = if which == Which::C07 { ctx.pick(4usize, 5usize) } else { ctx.pick(5usize, 6usize) };
     let focus_total = corpus::focus_count(focus_len);
     let total = focus_total + ex_total + boundary_total + soup_total + fam_total + fixed_total + wf_total + script_total;
     let acc = run_cases(ctx, total, |i0, acc| {
